@@ -85,7 +85,30 @@ func checkC18(c *Ctx) {
 				}
 			})
 		}
+		type swapFn struct {
+			fn   *ssa.Function
+			i, j string
+		}
+		var cbs []swapFn
 		for _, cl := range Closures(sh) {
+			cbs = append(cbs, swapFn{cl, "p0", "p1"})
+		}
+		// a method value (`r.Shuffle(n, g.swapEntries)`): the method, whose first parameter is the receiver
+		eachInstr(sh, func(in ssa.Instruction) {
+			call, ok := in.(*ssa.Call)
+			if !ok || call.Call.StaticCallee() == nil || call.Call.StaticCallee().String() != "(*math/rand.Rand).Shuffle" || len(call.Call.Args) < 3 {
+				return
+			}
+			if w := funcOfValue(call.Call.Args[2]); w != nil && strings.HasPrefix(w.Synthetic, "bound method wrapper") && w.Object() != nil {
+				if tf, isF := w.Object().(*types.Func); isF {
+					if m := p.SSA.FuncValue(tf); m != nil && m.Blocks != nil && funcPkgPath(m) == funcPkgPath(sh) {
+						cbs = append(cbs, swapFn{m, "p1", "p2"})
+					}
+				}
+			}
+		})
+		for _, cb := range cbs {
+			cl := cb.fn
 			k := NewKeyer(p, cl)
 			var stores [][2]string
 			other := 0
@@ -104,7 +127,7 @@ func checkC18(c *Ctx) {
 			if len(stores) == 2 && other == 0 {
 				a, b := stores[0], stores[1]
 				lp := func(idx string) string { return "[" + idx + "]" }
-				if a[0] != b[0] && strings.HasSuffix(a[1], lp(b[0])) && strings.HasSuffix(b[1], lp(a[0])) && (a[0] == "p0" || a[0] == "p1") && (b[0] == "p0" || b[0] == "p1") {
+				if a[0] != b[0] && strings.HasSuffix(a[1], lp(b[0])) && strings.HasSuffix(b[1], lp(a[0])) && (a[0] == cb.i || a[0] == cb.j) && (b[0] == cb.i || b[0] == cb.j) {
 					okSwap = true
 				}
 				detail = "stores: [" + a[0] + "] := " + shortVal(a[1]) + "; [" + b[0] + "] := " + shortVal(b[1])
@@ -222,23 +245,29 @@ func checkC18(c *Ctx) {
 			fg := NewFlow(p, gen)
 			nInc, nReset := 0, 0
 			var bad []string
-			eachInstr(gen, func(in ssa.Instruction) {
+			// (the odometer may be advanced by a private helper that is handed the digits and the base)
+			for _, d := range deepInstrs(fg, func(in ssa.Instruction) bool {
 				st, ok := in.(*ssa.Store)
 				if !ok {
-					return
+					return false
 				}
-				ia, ok := st.Addr.(*ssa.IndexAddr)
-				if !ok || !strings.HasSuffix(fg.K.Key(ia.X), "hs/twins.Generator.indices") {
-					return
+				_, ok = st.Addr.(*ssa.IndexAddr)
+				return ok
+			}, 0) {
+				in := d.Instr
+				st := in.(*ssa.Store)
+				ia := st.Addr.(*ssa.IndexAddr)
+				if !strings.HasSuffix(d.Key(ia.X), "hs/twins.Generator.indices") {
+					continue
 				}
-				elem := strings.TrimPrefix(fg.K.Key(ia), "&")
-				val := fg.K.Key(st.Val)
+				elem := strings.TrimPrefix(d.Key(ia), "&")
+				val := d.Key(st.Val)
 				switch {
 				case val == "("+elem+" + c:1)":
 					nInc++
 				case val == "c:0":
 					nReset++
-					facts := fg.At(in)
+					facts := d.Facts
 					if !hasCmp(facts, "<=", func(k string) bool {
 						return strings.HasPrefix(k, "builtin len(p0->hs/twins.Generator.leadersPartitions)")
 					}, is(elem)) {
@@ -247,7 +276,7 @@ func checkC18(c *Ctx) {
 				default:
 					bad = append(bad, p.InstrPos(in)+": "+shortVal(elem)+" := "+shortVal(val))
 				}
-			})
+			}
 			c.Check(nInc == 1 && nReset == 1 && len(bad) == 0, "C18.9", "NextScenario: a digit wraps exactly at len(leadersPartitions)", p.FuncPos(gen),
 				"indices[i] is advanced by one and reset to 0 exactly under len(leadersPartitions) <= indices[i]",
 				"increments: "+itoa(nInc)+", resets: "+itoa(nReset)+"; "+join(bad))
@@ -318,6 +347,52 @@ func checkC18(c *Ctx) {
 				okTwin = true
 			}
 		})
+		if !okKey || !okTwin {
+			// the twin filter hoisted out of the position loop: the logs of the non-twin replicas are collected once by a
+			// private helper (every element it appends is replica[0].executedBlocks under len(replica) == 1), and the
+			// count is keyed by the hash at position i of an element of that list
+			eachInstr(cc, func(in ssa.Instruction) {
+				mu, ok := in.(*ssa.MapUpdate)
+				if !ok {
+					return
+				}
+				k := fl.K.Key(mu.Key)
+				if !strings.HasPrefix(k, kBlockHash) {
+					return
+				}
+				for _, cs := range callsIn(cc, false, func(c2 *ssa.CallCommon) bool {
+					cal := c2.StaticCallee()
+					return cal != nil && cal.Blocks != nil && funcPkgPath(cal) == funcPkgPath(cc) && cal != cc
+				}) {
+					cv := cs.Value()
+					if cv == nil || !strings.HasPrefix(k, kBlockHash+fl.K.Key(cv)+"[") || !strings.Contains(k[len(kBlockHash+fl.K.Key(cv)):], "phi@") || !strings.Contains(k[len(kBlockHash+fl.K.Key(cv)):], "][phi@") {
+						continue
+					}
+					hf := cs.Common().StaticCallee()
+					hfl := NewFlow(p, hf)
+					nApp, good := 0, true
+					eachInstr(hf, func(x ssa.Instruction) {
+						ap, ok := x.(*ssa.Call)
+						if !ok {
+							return
+						}
+						if b, isB := ap.Call.Value.(*ssa.Builtin); !isB || b.Name() != "append" || !types.Identical(ap.Type(), cv.Type()) {
+							return
+						}
+						nApp++
+						var elem string
+						storedInto(sliceBase(ap.Call.Args[1]), func(e ssa.Value) bool { elem = hfl.K.Key(e); return false })
+						if !strings.HasSuffix(elem, "executedBlocks") || !strings.Contains(elem, "[c:0]") ||
+							!hasCmp(hfl.At(x), "==", func(s string) bool { return strings.HasPrefix(s, "builtin len(") }, is("c:1")) {
+							good = false
+						}
+					})
+					if nApp > 0 && good {
+						okKey, okTwin = true, true
+					}
+				}
+			})
+		}
 		c.Check(okKey && okTwin, "C18.4/count", "checkCommits: counts distinct block hashes of non-twin replicas", p.FuncPos(cc),
 			"commitCount[replica[0].executedBlocks[i].Hash()]++ only for replicas with exactly one node", "keyed by hash at position i: "+boolStr(okKey)+", twins skipped: "+boolStr(okTwin))
 		c.Check(strings.HasPrefix(idxKey, "phi@"), "C18.4/index", "checkCommits: the commit count is the position index", p.FuncPos(cc), "the second result is the loop's position counter", "second result is "+idxKey)
@@ -348,6 +423,22 @@ func checkC18(c *Ctx) {
 					}
 				}
 			})
+		}
+		if !ok {
+			// the views may be assembled by a private helper of the package that is handed the node list
+			for _, d := range deepInstrs(fl, func(in ssa.Instruction) bool {
+				st, isSt := in.(*ssa.Store)
+				if !isSt {
+					return false
+				}
+				fa, isFA := st.Addr.(*ssa.FieldAddr)
+				return isFA && strings.HasSuffix(fieldName(fa.X.Type(), fa.Field), "twins.View.Leader")
+			}, 0) {
+				lk := d.Key(d.Instr.(*ssa.Store).Val)
+				if strings.HasSuffix(lk, "hs/twins.NodeID.ReplicaID") && strings.Contains(lk, "assignNodeIDs(") && strings.Contains(lk, "#0[") {
+					ok = true
+				}
+			}
 		}
 		c.Check(ok, "C18.5", "NewGenerator: leaders are configured non-twin replicas", p.FuncPos(ng), "View.Leader = node.ReplicaID for node ranging over the non-twin nodes returned by assignNodeIDs", "leader source not recognised")
 	}
@@ -463,10 +554,38 @@ func c18FreshDecode(c *Ctx) {
 				reason = "the destination " + NewKeyer(p, fn).Key(dst) + " is not a fresh local variable (a field or buffer that survives the call keeps the previous scenario's partitions, which the decoder merges into)"
 			default:
 				// no store into the local other than its zero value, and the decode is not repeated on the same local
-				storedInto(al, func(sv ssa.Value) bool {
-					reason = "the local destination is written before decoding"
-					return true
-				})
+				// (only stores that can execute before the decode matter: a named result is stored back at the return)
+				if refs := al.Referrers(); refs != nil {
+					for _, r := range *refs {
+						st, isSt := r.(*ssa.Store)
+						if !isSt || st.Addr != ssa.Value(al) {
+							if _, isFA := r.(*ssa.FieldAddr); isFA {
+								reason = "the local destination is written before decoding"
+							}
+							if _, isIA := r.(*ssa.IndexAddr); isIA {
+								reason = "the local destination is written before decoding"
+							}
+							continue
+						}
+						before := false
+						if st.Block() == call.Block() {
+							for _, x := range st.Block().Instrs {
+								if x == ssa.Instruction(st) {
+									before = true
+									break
+								}
+								if x == ssa.Instruction(call) {
+									break
+								}
+							}
+						} else {
+							before = reachAvoidFromPlain(st.Block(), 0, func(x ssa.Instruction) bool { return x == ssa.Instruction(call) }, func(ssa.Instruction) bool { return false }, map[*ssa.BasicBlock]bool{}) != nil
+						}
+						if before || inLoop(call.Block()) {
+							reason = "the local destination is written before decoding"
+						}
+					}
+				}
 				if reason == "" && inLoop(call.Block()) && !inLoop(al.Block()) {
 					reason = "the local destination is declared outside the loop that decodes into it"
 				}
